@@ -903,6 +903,74 @@ def eval_farith(o, a, b, w):
     return fencode(r, w)
 
 
+FP_OPS = {"fadd", "fsub", "fmul", "fdiv", "call:llvm.sqrt", "call:llvm.fma", "call:llvm.fmuladd",
+          "call:llvm.trunc", "call:llvm.floor", "call:llvm.ceil", "call:llvm.round", "call:llvm.roundeven",
+          "call:llvm.rint", "sitofp", "uitofp", "fptosi", "fptoui", "fpext", "fptrunc", "x86.cvt"}
+
+
+def has_fp(t):
+    """does the closed form contain rounding-mode sensitive float arithmetic"""
+    seen = set()
+    stack = [t]
+    while stack:
+        x = stack.pop()
+        if not isinstance(x, tuple) or id(x) in seen:
+            continue
+        seen.add(id(x))
+        if x[0] in FP_OPS or x[0].startswith("fr:"):
+            return True
+        for y in x[2:]:
+            if isinstance(y, tuple):
+                stack.append(y)
+    return False
+
+
+def _ev_fp(t, env, memo):
+    import fpeval
+    o = t[0]
+    w = t[1]
+    rm = env.get("rm", "RN")
+    if o.startswith("fr:"):
+        # fixed-rounding form  fr:<mode>:<op>
+        _, rm, o = o.split(":", 2)
+    if w not in (32, 64) and o not in ("fptosi", "fptoui", "x86.cvt"):
+        raise Uneval("float width %d" % w)
+    if o in ("fadd", "fsub"):
+        return fpeval.add(ev(t[2], env, memo), ev(t[3], env, memo), w, rm, sub=(o == "fsub"))
+    if o == "fmul":
+        return fpeval.mul(ev(t[2], env, memo), ev(t[3], env, memo), w, rm)
+    if o == "fdiv":
+        return fpeval.div(ev(t[2], env, memo), ev(t[3], env, memo), w, rm)
+    if o == "call:llvm.sqrt":
+        return fpeval.sqrt(ev(t[2], env, memo), w, rm)
+    if o in ("call:llvm.fma", "call:llvm.fmuladd"):
+        return fpeval.fma(ev(t[2], env, memo), ev(t[3], env, memo), ev(t[4], env, memo), w, rm)
+    if o.startswith("call:llvm."):
+        return fpeval.to_integral(ev(t[2], env, memo), w, o[10:], rm)
+    if o in ("sitofp", "uitofp"):
+        return fpeval.from_int(ev(t[2], env, memo), t[2][1], o == "sitofp", w, rm)
+    if o in ("fptosi", "fptoui"):
+        sw = t[2][1]
+        v = ev(t[2], env, memo)
+        d = fpeval.decode(v, sw)
+        if d[0] in ("nan", "inf"):
+            raise Poison("%s of NaN/inf" % o)
+        r = fpeval.to_int(v, sw, w + 1 if o == "fptoui" else w, o == "fptosi" or True, "trunc", rm)
+        n = fpeval.decode(fpeval.to_integral(v, sw, "trunc"), sw)
+        n = 0 if n[0] == "zero" else int(n[1])
+        lo, hi = (-(1 << (w - 1)), (1 << (w - 1)) - 1) if o == "fptosi" else (0, (1 << w) - 1)
+        if not lo <= n <= hi:
+            raise Poison("%s out of range" % o)
+        return n & mask(w)
+    if o in ("fpext", "fptrunc"):
+        return fpeval.convert(ev(t[2], env, memo), t[2][1], w, rm)
+    if o == "x86.cvt":
+        # (x, signed, how)  how in trunc / rint
+        x = t[2]
+        return fpeval.to_int(ev(x, env, memo), x[1], w, bool(t[3]), t[4], rm)
+    raise Uneval(o)
+
+
 def fsub(w, a, b):
     """x - c == x + (-c) (LLVM canonical form)"""
     if b[0] == "const":
@@ -1689,14 +1757,8 @@ def _ev(t, env, memo):
         return int(eval_icmp(t[2], ev(t[3], env, memo), ev(t[4], env, memo), t[3][1]))
     if o == "select":
         return ev(t[3], env, memo) if ev(t[2], env, memo) else ev(t[4], env, memo)
-    if o in ("fadd", "fsub", "fmul", "fdiv"):
-        return eval_farith(o, ev(t[2], env, memo), ev(t[3], env, memo), w)
-    if o == "call:llvm.sqrt":
-        import math
-        x = fdecode(ev(t[2], env, memo), w)
-        if x != x or x < 0:
-            raise Uneval("sqrt domain")
-        return fencode(math.sqrt(x), w)
+    if o in FP_OPS or o.startswith("fr:"):
+        return _ev_fp(t, env, memo)
     if o == "call:llvm.fabs":
         return ev(t[2], env, memo) & (M >> 1)
     if o in ("satus", "satss"):
